@@ -437,6 +437,12 @@ Proof.
   exists raw; reflexivity.
 Qed.
 
+Theorem find_path_complete_cfg : forall g src dst,
+  wf_cfg g -> (exists p, cfg_path g src dst p) -> exists raw, find_path g src dst = Found raw.
+Proof.
+  intros g src dst W [p [t [Ht _]]]. apply find_path_complete; eauto.
+Qed.
+
 Theorem find_path_sound : forall g src dst raw,
   find_path g src dst = Found raw ->
   exists p, cfg_path g src dst p /\ raw = p ++ [dst].
@@ -734,15 +740,18 @@ Definition found_path_validated : Prop :=
 Definition vx : vexpr := VAtom 7.
 Definition valid_x : cexpr := CCall true RBool [vx].           (* Validate(x) *)
 Definition not_valid_x : cexpr := CUn true valid_x.            (* !Validate(x) *)
+Definition invalid_x : cexpr :=                                (* ValidateErr(x) != nil *)
+  CBin OpNeq true false true (CCall true RErr [vx]) COther.
 
-(* b0: x := source(); if !Validate(x) goto b1 else b2      b1: log(); goto b3      b2: log(); goto b3      b3: sink(x) *)
+(* b0: x := source(); if ValidateErr(x) != nil goto b1 else b2      b1: log(); goto b3      b2: log(); goto b3
+   b3: sink(x) *)
 Definition diamond : cfg :=
-  [ mkBlock [1; 2] (Some (1, not_valid_x)); mkBlock [3] None; mkBlock [3] None; mkBlock [] None ].
+  [ mkBlock [1; 2] (Some (1, invalid_x)); mkBlock [3] None; mkBlock [3] None; mkBlock [] None ].
 
-(* b0: x := source(); if !Validate(x) goto b1 else b2      b1: log(); goto b2      b2: sink(x)
-   (testdata/validators example 7 has this shape with `err != nil`) *)
+(* b0: x := source(); if ValidateErr(x) != nil goto b1 else b2      b1: log(); goto b2      b2: sink(x)
+   (the shape of testdata/validators example 7) *)
 Definition triangle : cfg :=
-  [ mkBlock [1; 2] (Some (1, not_valid_x)); mkBlock [2] None; mkBlock [] None ].
+  [ mkBlock [1; 2] (Some (1, invalid_x)); mkBlock [2] None; mkBlock [] None ].
 
 (* b0: x := source(); goto b1      b1: sink(x); if Validate(x) goto b1 else b2      b2: return
    ( for { sink(x); if !Validate(x) { break } } ) *)
